@@ -158,6 +158,26 @@ func init() {
 				fail(*f)
 			}
 		}
+		// words that mean something in SPDX documents or package metadata but are no license ids, in every argument position
+		for _, wd := range specialWords {
+			for _, text := range []string{wd, "MIT OR " + wd, "(" + wd + ")", wd + "+", "MIT WITH " + wd, wd + " WITH " + wd} {
+				count("special_words")
+				if f := c03Probe(text, true); f != nil {
+					fail(*f)
+				}
+			}
+			for _, l := range [][]string{{wd}, {"MIT", wd}, {wd, "MIT"}, {wd, wd}, {"MIT", wd, "ISC", wd}, {wd, "LicenseRef-a", wd + "+"}} {
+				res.Evaluations++
+				if v := implVal(l); v.panicv != nil {
+					fail(failure{Stream: "oracle", What: fmt.Sprintf("ValidateLicenses panicked on a slice: %v", v.panicv), Case: &kase{Allowed: l}, Impl: "PANIC"})
+				}
+				for _, e := range []string{"MIT", wd, "MIT AND ISC"} {
+					if r := implSat(e, l); r.panicv != nil {
+						fail(failure{Stream: "oracle", What: fmt.Sprintf("Satisfies panicked on an allowed list: %v", r.panicv), Case: &kase{Expr: e, ExprHex: hx(e), Allowed: l}, Impl: "PANIC"})
+					}
+				}
+			}
+		}
 		// slices
 		for _, l := range [][]string{nil, {}, {""}, {"", ""}, {"MIT", ""}, {"(", "MIT"}, {"MIT AND ISC"}} {
 			res.Evaluations++
@@ -432,6 +452,39 @@ func init() {
 				}
 				count("boundary_sizes")
 				if f := c04String(text, comp); f != nil {
+					fail(*f)
+				}
+			}
+		}
+		// valid expressions whose disjunctive form is wide (numbers of alternatives around 2^16): a limit on the expansion must
+		// not turn a valid expression into an error in one entry point only
+		for _, widths := range [][]int{{257, 257}, {256, 256}, {41, 41, 41}, {17, 16, 16, 16}, {16, 16, 16, 16}} {
+			var groups []string
+			k := 0
+			for _, wd := range widths {
+				p := make([]string, wd)
+				for i := range p {
+					p[i] = "LicenseRef-w" + itoa(k)
+					k++
+				}
+				groups = append(groups, "("+strings.Join(p, " OR ")+")")
+			}
+			text := strings.Join(groups, " AND ")
+			count("wide_products")
+			if f := c04String(text, 1); f != nil {
+				fail(*f)
+			}
+		}
+		// words that mean something in SPDX documents or package metadata but are no license ids
+		for _, wd := range specialWords {
+			for _, text := range []string{wd, "MIT OR " + wd, wd + " AND MIT", "(" + wd + ")", wd + "+", "MIT WITH " + wd} {
+				count("special_words")
+				if f := c04String(text, -1); f != nil {
+					fail(*f)
+				}
+			}
+			for _, l := range [][]string{{wd}, {"MIT", wd}, {wd, "MIT"}, {wd, wd}, {"MIT", wd, "ISC", wd}} {
+				if f := c04List(l); f != nil {
 					fail(*f)
 				}
 			}
